@@ -10,30 +10,66 @@ Import RecordSetNotations.
 
 Local Open Scope N_scope.
 
-Definition has (r : raft) (id : N) : Prop := exists p, get_pr r id = Some p.
-Definition keeps (r r' : raft) : Prop := forall id, has r id -> has r' id.
+(* presence of a peer in a progress map, and its preservation *)
+Definition hasL (m : list (N * progress)) (id : N) : Prop := exists p, pget m id = Some p.
+Definition keepsL (m m' : list (N * progress)) : Prop := forall id, hasL m id -> hasL m' id.
+Definition has (r : raft) (id : N) : Prop := hasL (t_progress (r_prs r)) id.
+Definition keeps (r r' : raft) : Prop := keepsL (t_progress (r_prs r)) (t_progress (r_prs r')).
 Definition post (r r' : raft) : Prop := NodeInv r' /\ keeps r r'.
 
-Lemma keeps_refl r : keeps r r. Proof. intros id H; exact H. Qed.
-Lemma keeps_trans a b c : keeps a b -> keeps b c -> keeps a c.
+Arguments PrsOk : simpl never.
+Arguments RoInv : simpl never.
+Arguments hasL : simpl never.
+Arguments keepsL : simpl never.
+Arguments pr_ok : simpl never.
+Arguments pput : simpl never.
+Arguments pget : simpl never.
+Arguments maybe_update : simpl never.
+Arguments maybe_decr_to : simpl never.
+Arguments become_probe : simpl never.
+Arguments become_replicate : simpl never.
+Arguments become_snapshot : simpl never.
+Arguments update_committed : simpl never.
+Arguments resume : simpl never.
+Arguments pause : simpl never.
+Arguments snapshot_failure : simpl never.
+Arguments set_recent_active : simpl never.
+Arguments set_pending_request_snapshot : simpl never.
+Arguments set_ins : simpl never.
+Arguments fresh_progress : simpl never.
+
+Lemma keepsL_refl m : keepsL m m. Proof. intros id H; exact H. Qed.
+Lemma keepsL_trans a b c : keepsL a b -> keepsL b c -> keepsL a c.
 Proof. intros H1 H2 id H. apply H2, H1, H. Qed.
-Lemma keeps_put_pr r id p : keeps r (put_pr r id p).
+Lemma keepsL_pput m id p : keepsL m (pput m id p).
 Proof.
-  intros id' [q Hq]. unfold has, get_pr, put_pr. cbn.
+  intros id' [q Hq]. unfold hasL.
   destruct (N.eq_dec id' id) as [->|Hne].
   - rewrite pget_pput_same. eauto.
   - rewrite pget_pput_other by exact Hne. eauto.
 Qed.
-Lemma has_put_pr r id p : has (put_pr r id p) id.
-Proof. unfold has, get_pr, put_pr. cbn. rewrite pget_pput_same. eauto. Qed.
+Lemma keepsL_pput_r a m id p : keepsL a m -> keepsL a (pput m id p).
+Proof. intros H. eapply keepsL_trans; [exact H|apply keepsL_pput]. Qed.
+Lemma hasL_pput m id p : hasL (pput m id p) id.
+Proof. unfold hasL. rewrite pget_pput_same. eauto. Qed.
+Lemma hasL_get m id p : pget m id = Some p -> hasL m id.
+Proof. intros H. exists p. exact H. Qed.
+Lemma PrsOk_get m id p : PrsOk m -> pget m id = Some p -> pr_ok p.
+Proof. intros A G. eapply A; exact G. Qed.
 
-Lemma NodeInv_put_pr r id p : NodeInv r -> pr_ok p -> NodeInv (put_pr r id p).
-Proof. intros [A B] Hp. split; [apply PrsOk_pput; assumption|exact B]. Qed.
+Lemma keeps_refl r : keeps r r. Proof. apply keepsL_refl. Qed.
+Lemma keeps_trans a b c : keeps a b -> keeps b c -> keeps a c.
+Proof. apply keepsL_trans. Qed.
 Lemma NodeInv_get r id p : NodeInv r -> get_pr r id = Some p -> pr_ok p.
 Proof. intros [A _] G. eapply A; exact G. Qed.
+Lemma NodeInv_intro r : PrsOk (t_progress (r_prs r)) -> RoInv (r_read_only r) -> NodeInv r.
+Proof. split; assumption. Qed.
 
 (* ------------------------------------------------------------------ *)
-(* automation *)
+(* automation.  All facts are kept in a normal form over progress lists
+   ([t_progress (r_prs x)] for a state variable x, [pput M id p]) and read-only
+   records, obtained by REDUCTION ([cbn]) of the record updates: conversion between two
+   nested record-update expressions is exponential and is never attempted. *)
 Create HintDb safe.
 Create HintDb prok.
 
@@ -46,72 +82,152 @@ Create HintDb prok.
 #[export] Hint Extern 1 (pr_ok (snapshot_failure _)) => apply pr_ok_misc : prok.
 #[export] Hint Extern 1 (pr_ok (set_pending_request_snapshot _ _)) => apply pr_ok_misc : prok.
 #[export] Hint Extern 1 (pr_ok (set_commit_group_id _ _)) => apply pr_ok_misc : prok.
-#[export] Hint Extern 4 (pr_ok ?p) =>
-  match goal with
-  | H : pr_ok ?q |- _ => exact H
-  | H : get_pr ?r ?id = Some p, N : NodeInv ?r' |- _ => exact (NodeInv_get r' id p N H)
-  end : prok.
+#[export] Hint Extern 4 (pr_ok ?p) => match goal with H : pr_ok p |- _ => exact H end : prok.
+#[export] Hint Extern 3 (Inv _) => assumption : prok.
 
 Ltac solve_prok := solve [eauto 8 with prok nocore].
 
-Ltac solve_ni :=
-  first [ match goal with H : NodeInv _ |- NodeInv _ => exact H end
-        | apply NodeInv_put_pr; [solve_ni|solve_prok] ].
+(* normal form of one hypothesis *)
+Ltac nrm_in H :=
+  unfold post, NodeInv, keeps, has, get_pr in H; cbn in H.
 
-Ltac solve_keeps n :=
+(* bring every relevant hypothesis into normal form and saturate *)
+Ltac brk :=
+  repeat match goal with
+  | H : post _ _ |- _ => nrm_in H; destruct H as [[? ?] ?]
+  | H : NodeInv _ |- _ => nrm_in H; destruct H as [? ?]
+  | H : keeps _ _ |- _ => nrm_in H
+  | H : has _ _ |- _ => nrm_in H
+  | H : get_pr _ _ = _ |- _ => nrm_in H
+  | H : _ /\ _ |- _ => destruct H
+  | H : True |- _ => clear H
+  end;
+  cbn [fst snd] in *;
+  repeat match goal with
+  | H : pget ?M ?id = Some ?p, N : PrsOk ?M |- _ =>
+      lazymatch goal with
+      | _ : pr_ok p |- _ => fail
+      | _ => assert (pr_ok p) by (exact (PrsOk_get M id p N H))
+      end
+  | H : maybe_decr_to ?p ?a ?b ?c = (?x, _) |- _ =>
+      lazymatch goal with
+      | _ : pr_ok x |- _ => fail
+      | _ => assert (pr_ok x)
+               by (let X := fresh in
+                   assert (X : pr_ok (fst (maybe_decr_to p a b c))) by (apply pr_ok_maybe_decr_to; solve_prok);
+                   rewrite H in X; exact X)
+      end
+  | H : maybe_update ?p ?a = (?x, _) |- _ =>
+      lazymatch goal with
+      | _ : pr_ok x |- _ => fail
+      | _ => assert (pr_ok x)
+               by (let X := fresh in
+                   assert (X : pr_ok (fst (maybe_update p a))) by (apply pr_ok_maybe_update; solve_prok);
+                   rewrite H in X; exact X)
+      end
+  | H : ro_recv_ack ?ro ?id ?ctx = (?a, _), N : RoInv ?ro |- _ =>
+      lazymatch goal with
+      | _ : RoInv a |- _ => fail
+      | _ => assert (RoInv a)
+               by (let X := fresh in
+                   pose proof (ro_recv_ack_inv ro id ctx N) as X; rewrite H in X; exact X)
+      end
+  end.
+
+(* goals in normal form *)
+Ltac solve_prs :=
+  lazymatch goal with
+  | |- PrsOk (pput _ _ _) => apply PrsOk_pput; [solve_prs|solve_prok]
+  | |- PrsOk ?M => match goal with H : PrsOk M |- _ => exact H end
+  end.
+
+Ltac solve_ro :=
+  lazymatch goal with
+  | |- RoInv ?R => match goal with H : RoInv R |- _ => exact H end
+  end.
+
+Ltac solve_ni :=
+  lazymatch goal with
+  | |- NodeInv _ => apply NodeInv_intro; cbn; [solve_prs|solve_ro]
+  end.
+
+Ltac solve_keepsL n :=
   lazymatch n with
   | O => fail
   | S ?k =>
-    first [ exact (fun id H => H)
-          | match goal with
-            | H : keeps ?a ?b |- keeps ?a' ?c =>
-                apply (keeps_trans a' b c); [exact H|solve_keeps k]
-            end
-          | match goal with
-            | |- keeps ?a (put_pr ?b ?id ?p) =>
-                apply (keeps_trans a b (put_pr b id p)); [solve_keeps k|apply keeps_put_pr]
-            end ]
+    lazymatch goal with
+    | |- keepsL ?a ?a => apply keepsL_refl
+    | |- keepsL ?a (pput ?b ?id ?p) => apply keepsL_pput_r; solve_keepsL k
+    | |- keepsL ?a ?c =>
+        match goal with
+        | H : keepsL ?b c |- _ => apply (keepsL_trans a b c); [solve_keepsL k|exact H]
+        end
+    end
   end.
+
+Ltac solve_keeps := unfold keeps; cbn; solve_keepsL 12%nat.
+
+Ltac solve_hasL n :=
+  lazymatch n with
+  | O => fail
+  | S ?k =>
+    lazymatch goal with
+    | |- hasL (pput _ ?id _) ?id => apply hasL_pput
+    | |- hasL ?M ?id =>
+        match goal with
+        | H : hasL M id |- _ => exact H
+        | H : pget M id = Some ?p |- _ => exact (hasL_get M id p H)
+        | K : keepsL ?a M |- _ => apply K; solve_hasL k
+        end
+    end
+  end.
+
+Ltac solve_has := unfold has; cbn; solve_hasL 8%nat.
 
 Ltac solve_post :=
   lazymatch goal with
-  | |- post _ _ => split; [solve_ni|solve_keeps 8%nat]
+  | |- context [match ?x with _ => _ end] => destruct x; solve_post
+  | |- post _ _ => split; [solve_ni|solve_keeps]
   | |- NodeInv _ => solve_ni
-  | |- keeps _ _ => solve_keeps 8%nat
+  | |- keeps _ _ => solve_keeps
+  | |- has _ _ => solve_has
   | |- pr_ok _ => solve_prok
+  | |- RoInv _ => cbn; solve_ro
   | |- True => exact I
   | |- _ /\ _ => split; solve_post
   | |- _ => idtac
   end.
 
-Ltac brk :=
-  repeat match goal with
-  | H : _ /\ _ |- _ => destruct H
-  | H : post _ _ |- _ => destruct H
-  | H : True |- _ => clear H
-  end; cbn [fst snd] in *.
-
-#[export] Hint Extern 2 (NodeInv _) => match goal with H : NodeInv _ |- _ => exact H end : safe.
+#[export] Hint Extern 2 (NodeInv _) => solve_ni : safe.
 #[export] Hint Extern 2 (pr_ok _) => solve_prok : safe.
+#[export] Hint Extern 2 (RoInv _) => cbn; solve_ro : safe.
+#[export] Hint Extern 2 (has _ _) => solve_has : safe.
+#[export] Hint Extern 2 (Inv (ins ?p)) =>
+  let X := fresh in assert (X : pr_ok p) by solve_prok; exact (proj1 X) : safe.
 #[export] Hint Extern 9 (safe _ _) =>
   eapply safe_from_sites; [intros ? ?; eauto with sites nocore|vm_compute; reflexivity] : safe.
 
 Ltac solve_contra :=
   solve [ repeat match goal with H : pr_ok _ |- _ => destruct H as [? ?] end; lia
         | match goal with
-          | H : get_pr ?r ?id = None, K : has ?r' ?id |- _ =>
-              let q := fresh in destruct K as [q K]; change (get_pr r id = Some q) in K; congruence
+          | H : pget ?M ?id = None, K : hasL ?M ?id |- _ =>
+              let q := fresh in destruct K as [q K]; congruence
           end ].
 
 #[export] Hint Extern 1 (is_paused _ = false) => assumption : safe.
 
+Lemma bind_assoc {A B C} (a : Res A) (f : A -> Res B) (g : B -> Res C) :
+  bind (bind a f) g = bind a (fun x => bind (f x) g).
+Proof. destruct a; reflexivity. Qed.
+
 Ltac sstep :=
   lazymatch goal with
-  | |- safe _ (Ok _) => apply safe_ok; cbn [fst snd]; solve_post
+  | |- safe _ (Ok _) => apply safe_ok; cbv beta; cbn [fst snd]; solve_post
   | |- safe _ (Panic _) => first [ apply safe_panic; vm_compute; reflexivity | exfalso; solve_contra ]
   | |- safe _ (bind (Ok _) _) => cbn [bind]; cbv beta
   | |- safe _ (bind (Panic _) _) => cbn [bind]
   | |- safe _ (bind (match ?x with _ => _ end) _) => destruct x eqn:?; brk
+  | |- safe _ (bind (bind _ _) _) => rewrite bind_assoc
   | |- safe _ (bind _ _) =>
       eapply safe_bind; [ solve [ typeclasses eauto with safe ] | ];
       let x := fresh "x" in let E := fresh "E" in let Hx := fresh "Hx" in
@@ -123,7 +239,7 @@ Ltac sstep :=
       intros a E Ha; cbv beta in Ha |- *; brk; solve_post
   end.
 
-Ltac ssafe := cbv beta zeta; repeat sstep.
+Ltac ssafe := cbv beta zeta; brk; repeat sstep.
 
 (* ------------------------------------------------------------------ *)
 Lemma send_safe r m : NodeInv r -> safe (post r) (send r m).
@@ -222,3 +338,217 @@ Proof. intros H. unfold bcast_heartbeat. apply bcast_heartbeat_with_ctx_safe. ex
 Lemma maybe_commit_safe r : NodeInv r -> safe (fun x => post r (fst x)) (maybe_commit r).
 Proof. intros H. unfold maybe_commit. ssafe. Qed.
 #[export] Hint Extern 1 (safe _ (maybe_commit _)) => eapply maybe_commit_safe : safe.
+
+Lemma append_entry_safe r es : NodeInv r -> safe (fun x => post r (fst x)) (append_entry r es).
+Proof.
+  intros H. unfold append_entry.
+  destruct (maybe_increase_uncommitted_size r es) as [r1 ok] eqn:E.
+  assert (H1 : NodeInv r1 /\ keeps r r1).
+  { unfold maybe_increase_uncommitted_size in E.
+    repeat match type of E with (if ?c then _ else _) = _ => destruct c end;
+      injection E as <- <-; split; try exact H; intros id hh; exact hh. }
+  destruct H1 as [H1 K1]. ssafe.
+Qed.
+#[export] Hint Extern 1 (safe _ (append_entry _ _)) => eapply append_entry_safe : safe.
+
+Lemma reset_safe r t : NodeInv r -> safe (post r) (reset r t).
+Proof.
+  intros H. unfold reset. cbv zeta.
+  set (r0 := if negb (r_term r =? t) then r <| r_term := t |> <| r_vote := INVALID_ID |> else r).
+  assert (E0 : t_progress (r_prs r0) = t_progress (r_prs r) /\ r_read_only r0 = r_read_only r)
+    by (subst r0; destruct (negb _); split; reflexivity).
+  destruct E0 as [Ep Er].
+  destruct (r_draws r0) as [|d ds]; [apply safe_panic; vm_compute; reflexivity|].
+  apply safe_ok. cbn.
+  set (f := fun (k : N) (p0 : progress) =>
+       if k =? r_id r0
+       then set_committed_index (set_matched (pr_reset p0 (last_index (r_log r0) + 1))
+              (persisted (r_log r0))) (committed (r_log r0))
+       else pr_reset p0 (last_index (r_log r0) + 1)).
+  split.
+  - split; cbn.
+    + rewrite Ep. apply (PrsOk_map f); [|apply H].
+      intros k p Hp. unfold f. destruct (k =? r_id r0).
+      * apply pr_ok_misc. apply pr_ok_misc. apply pr_ok_reset; [exact Hp|lia].
+      * apply pr_ok_reset; [exact Hp|lia].
+    + apply RoInv_new.
+  - unfold keeps, keepsL, hasL. cbn [r_prs t_progress]. intros id [p Hp].
+    change (exists p0, pget (map (fun kp => (fst kp, f (fst kp) (snd kp))) (t_progress (r_prs r0))) id = Some p0).
+    rewrite Ep, (pget_map f), Hp. cbn [option_map]. eauto.
+Qed.
+#[export] Hint Extern 1 (safe _ (reset _ _)) => eapply reset_safe : safe.
+
+Lemma become_follower_safe r t l : NodeInv r -> safe (post r) (become_follower r t l).
+Proof. intros H. unfold become_follower. ssafe. Qed.
+#[export] Hint Extern 1 (safe _ (become_follower _ _ _)) => eapply become_follower_safe : safe.
+
+Lemma become_candidate_safe r : NodeInv r -> safe (post r) (become_candidate r).
+Proof. intros H. unfold become_candidate. ssafe. Qed.
+#[export] Hint Extern 1 (safe _ (become_candidate _)) => eapply become_candidate_safe : safe.
+
+Lemma become_pre_candidate_safe r : NodeInv r -> safe (post r) (become_pre_candidate r).
+Proof. intros H. unfold become_pre_candidate. ssafe. Qed.
+#[export] Hint Extern 1 (safe _ (become_pre_candidate _)) => eapply become_pre_candidate_safe : safe.
+
+Lemma become_leader_safe r : NodeInv r -> safe (post r) (become_leader r).
+Proof. intros H. unfold become_leader. ssafe. Qed.
+#[export] Hint Extern 1 (safe _ (become_leader _)) => eapply become_leader_safe : safe.
+
+Lemma poll_gen_safe (rc : raft -> Res raft) r from v :
+  (forall r0, NodeInv r0 -> safe (post r0) (rc r0)) ->
+  NodeInv r -> safe (fun x => post r (fst x)) (poll_gen rc r from v).
+Proof.
+  intros Hrc H. unfold poll_gen. cbv zeta. brk.
+  match goal with |- safe _ (match ?x with _ => _ end) => destruct x end.
+  - ssafe.
+  - ssafe.
+  - match goal with |- safe _ (if ?c then _ else _) => destruct c end.
+    + eapply safe_bind; [apply Hrc; solve_ni|]. intros x E Hx. brk. ssafe.
+    + ssafe.
+Qed.
+
+Lemma send_vote_requests_safe ids : forall r vm t c ct tr,
+  NodeInv r -> safe (post r) (send_vote_requests ids r vm t c ct tr).
+Proof.
+  induction ids as [|id rest IH]; intros r vm t c ct tr H; cbn [send_vote_requests]; ssafe.
+Qed.
+#[export] Hint Extern 1 (safe _ (send_vote_requests _ _ _ _ _ _ _)) => eapply send_vote_requests_safe : safe.
+
+Lemma campaign_real_safe tr r : NodeInv r -> safe (post r) (campaign_real tr r).
+Proof.
+  intros H. unfold campaign_real.
+  eapply safe_bind; [apply become_candidate_safe; exact H|]. intros r1 E1 Hx. brk.
+  eapply safe_bind.
+  { apply (poll_gen_safe (fun _ => Panic site_fuel)); [|solve_ni].
+    intros r0 _. apply safe_panic. vm_compute. reflexivity. }
+  intros x E2 Hx. cbv beta in Hx. brk. ssafe.
+Qed.
+#[export] Hint Extern 1 (safe _ (campaign_real _ _)) => eapply campaign_real_safe : safe.
+
+Lemma poll_safe r from v : NodeInv r -> safe (fun x => post r (fst x)) (poll r from v).
+Proof.
+  intros H. unfold poll. apply poll_gen_safe; [|exact H].
+  intros r0 H0. apply campaign_real_safe. exact H0.
+Qed.
+#[export] Hint Extern 1 (safe _ (poll _ _ _)) => eapply poll_safe : safe.
+
+Lemma campaign_pre_safe r : NodeInv r -> safe (post r) (campaign_pre r).
+Proof. intros H. unfold campaign_pre. ssafe. Qed.
+#[export] Hint Extern 1 (safe _ (campaign_pre _)) => eapply campaign_pre_safe : safe.
+
+Lemma hup_safe r tl : NodeInv r -> safe (post r) (hup r tl).
+Proof. intros H. unfold hup. ssafe. Qed.
+#[export] Hint Extern 1 (safe _ (hup _ _)) => eapply hup_safe : safe.
+
+Lemma maybe_commit_by_vote_safe r m : NodeInv r -> safe (post r) (maybe_commit_by_vote r m).
+Proof. intros H. unfold maybe_commit_by_vote. ssafe. Qed.
+#[export] Hint Extern 1 (safe _ (maybe_commit_by_vote _ _)) => eapply maybe_commit_by_vote_safe : safe.
+
+Lemma handle_ready_read_index_safe r req i :
+  NodeInv r -> safe (fun x => post r (fst x)) (handle_ready_read_index r req i).
+Proof. intros H. unfold handle_ready_read_index. ssafe. Qed.
+#[export] Hint Extern 1 (safe _ (handle_ready_read_index _ _ _)) => eapply handle_ready_read_index_safe : safe.
+
+Lemma respond_reads_safe rss : forall r, NodeInv r -> safe (post r) (respond_reads r rss).
+Proof. induction rss as [|rs rest IH]; intros r H; cbn [respond_reads]; ssafe. Qed.
+#[export] Hint Extern 1 (safe _ (respond_reads _ _)) => eapply respond_reads_safe : safe.
+
+Lemma send_timeout_now_safe r to : NodeInv r -> safe (post r) (send_timeout_now r to).
+Proof. intros H. unfold send_timeout_now. apply send_safe. exact H. Qed.
+#[export] Hint Extern 1 (safe _ (send_timeout_now _ _)) => eapply send_timeout_now_safe : safe.
+
+Lemma send_request_snapshot_safe r : NodeInv r -> safe (post r) (send_request_snapshot r).
+Proof. intros H. unfold send_request_snapshot. ssafe. Qed.
+#[export] Hint Extern 1 (safe _ (send_request_snapshot _)) => eapply send_request_snapshot_safe : safe.
+
+Lemma handle_append_entries_safe r m : NodeInv r -> safe (post r) (handle_append_entries r m).
+Proof. intros H. unfold handle_append_entries. ssafe. Qed.
+#[export] Hint Extern 1 (safe _ (handle_append_entries _ _)) => eapply handle_append_entries_safe : safe.
+
+Lemma handle_heartbeat_safe r m : NodeInv r -> safe (post r) (handle_heartbeat r m).
+Proof. intros H. unfold handle_heartbeat. ssafe. Qed.
+#[export] Hint Extern 1 (safe _ (handle_heartbeat _ _)) => eapply handle_heartbeat_safe : safe.
+
+Lemma ro_advance_safe ro ctx : RoInv ro -> safe (fun x => RoInv (fst x)) (ro_advance ro ctx).
+Proof. intros H. destruct (ro_advance_ok ro ctx H) as (ro' & rss & E & H'). rewrite E. exact H'. Qed.
+#[export] Hint Extern 1 (safe _ (ro_advance _ _)) => eapply ro_advance_safe : safe.
+
+Lemma ro_add_request_safe ro i req id : RoInv ro -> safe RoInv (ro_add_request ro i req id).
+Proof.
+  intros H. destruct (ro_add_request ro i req id) as [ro'|s] eqn:E.
+  - eapply ro_add_request_inv; eassumption.
+  - apply ro_add_request_sites_ok in E. destruct E as [<-|[]]. apply notin_b. vm_compute. reflexivity.
+Qed.
+#[export] Hint Extern 1 (safe _ (ro_add_request _ _ _ _)) => eapply ro_add_request_safe : safe.
+
+Lemma pcc_loop_safe r :
+  NodeInv r ->
+  safe (post r)
+    (for_each_peer (pids (t_progress (r_prs r))) (r_id r)
+       (fun r id => match get_pr r id with
+                    | None => Panic site_pr_unwrap
+                    | Some pr =>
+                        y <- maybe_send_append r id pr false ;;
+                        let '(r', pr', _) := y in Ok (put_pr r' id pr')
+                    end) r).
+Proof.
+  intros H. apply for_each_peer_safe; [|exact H|intros id; apply has_in_pids].
+  intros r0 id H0 Hh. ssafe.
+Qed.
+
+Lemma post_conf_change_safe r : NodeInv r -> safe (fun x => post r (fst x)) (post_conf_change r).
+Proof.
+  intros H. unfold post_conf_change. cbv zeta. brk.
+  match goal with |- safe _ (if ?c then _ else _) => destruct c end; [ssafe|].
+  match goal with |- safe _ (if ?c then _ else _) => destruct c end; [ssafe|].
+  eapply safe_bind; [apply maybe_commit_safe; solve_ni|]. intros [r1 b] E1 Hx. brk. cbv beta iota.
+  eapply safe_bind.
+  { instantiate (1 := post r1). destruct b; [apply bcast_append_safe; solve_ni|].
+    apply pcc_loop_safe. solve_ni. }
+  intros r2 E2 Hx. brk. ssafe.
+Qed.
+#[export] Hint Extern 1 (safe _ (post_conf_change _)) => eapply post_conf_change_safe : safe.
+
+Lemma NodeInv_fresh r c ids n mi :
+  NodeInv r -> 1 <= n -> NodeInv (set_conf_prs r c (fresh_progress ids n mi)).
+Proof. intros [_ B] Hn. split; [apply PrsOk_fresh; exact Hn|exact B]. Qed.
+
+Lemma restore_safe r s :
+  NodeInv r -> 1 <= s_index s -> safe (fun x => NodeInv (fst x)) (restore r s).
+Proof.
+  intros H Hs. unfold restore. brk.
+  match goal with |- safe _ (if ?c then _ else _) => destruct c end; [ssafe|].
+  match goal with |- safe _ (if ?c then _ else _) => destruct c end; [ssafe|].
+  cbv zeta.
+  match goal with |- safe _ (if ?c then _ else _) => destruct c end; [ssafe|].
+  eapply safe_bind; [solve [typeclasses eauto with safe]|]. intros mt _ _.
+  match goal with |- safe _ (if ?c then _ else _) => destruct c end; [ssafe|].
+  destruct (log_restore (r_log r) s) as [l'|s1] eqn:El; cbn [bind].
+  2:{ apply log_restore_sites_ok in El. destruct El as [<-|[]]. apply notin_b. vm_compute. reflexivity. }
+  apply log_restore_eq in El. subst l'.
+  change (last_index (r_log (r <| r_log := restored_log (r_log r) s |>))) with (s_index s).
+  destruct (ConfChange.restore empty_tracker (s_cs s)) as [[c' ids']|e]; [|ssafe].
+  eapply safe_bind.
+  { apply post_conf_change_safe. apply NodeInv_fresh; [|exact Hs]. solve_ni. }
+  intros [r1 cs1] E1 Hx. brk. cbv beta iota. ssafe.
+Qed.
+#[export] Hint Extern 1 (safe _ (restore _ _)) => eapply restore_safe : safe.
+
+Lemma handle_snapshot_safe r m :
+  NodeInv r -> 1 <= s_index (m_snapshot m) -> safe NodeInv (handle_snapshot r m).
+Proof. intros H Hs. unfold handle_snapshot. ssafe. Qed.
+#[export] Hint Extern 1 (safe _ (handle_snapshot _ _)) => eapply handle_snapshot_safe : safe.
+
+Lemma free_to_safe i x : Inv i -> safe Inv (Inflights.free_to i x).
+Proof. intros H. destruct (inf_free_to_ok i x H) as (i' & E & H'). rewrite E. exact H'. Qed.
+Lemma free_first_one_safe i : Inv i -> safe Inv (Inflights.free_first_one i).
+Proof. intros H. destruct (inf_free_first_ok i H) as (i' & E & H'). rewrite E. exact H'. Qed.
+Lemma set_cap_safe i c : Inv i -> safe Inv (Inflights.set_cap i c).
+Proof. intros H. destruct (inf_set_cap_ok i c H) as (i' & E & H'). rewrite E. exact H'. Qed.
+#[export] Hint Extern 1 (safe _ (Inflights.free_to _ _)) => eapply free_to_safe : safe.
+#[export] Hint Extern 1 (safe _ (Inflights.free_first_one _)) => eapply free_first_one_safe : safe.
+#[export] Hint Extern 1 (safe _ (Inflights.set_cap _ _)) => eapply set_cap_safe : safe.
+#[export] Hint Extern 2 (Inv (ins ?p)) =>
+  let X := fresh in assert (X : pr_ok p) by solve_prok; exact (proj1 X) : safe.
+#[export] Hint Extern 3 (Inv _) => assumption : prok.
+
